@@ -95,6 +95,12 @@ CHECKS = {
    design_ref="DESIGN.md section 3, C12",
    note="Samples credential classes with fresh keys per case; cases without a successful positive control are inconclusive.",
    technique="runtime monitoring: intruder/impostor probes with positive controls against real AutoMTLS plugin processes"),
+ "C16": dict(
+   category="exploration",
+   text="Runtime monitor in which the harness is the host: the plugin binary is executed directly over the cookie x configuration product; raw stdout/stderr/exit status, the private sandbox listing, an immediate connect to the announced address, and strace's bind/listen/write order decide the property (no listener and status 1 without the cookie; exactly one well-formed line, nothing else on fd 1, listener ready before the line).",
+   design_ref="DESIGN.md section 3, C16",
+   note="Needs a working strace -f for the syscall-order and transient-listener observations (self-tested at run start; recorded in the evidence as strace_available).",
+   technique="runtime monitoring: external process/syscall monitor (strace) plus raw stdio and file-system observation"),
 }
 PENDING_REASON = "check not built yet in this revision; it is planned as a runtime monitor (see DESIGN.md section 3) and will move to 'checks' when it exists"
 
